@@ -498,7 +498,7 @@ PROP = Property(
           "request; distinct = (mode, API, value)."),
     strategy=strategy,
     run_case=run_case,
-    budgets={"quick": 3200, "thorough": 16000},
+    budgets={"quick": 3200, "thorough": 60000},
     assumptions=[
         "the sandbox runs as root (negative nice, RT I/O class allowed)",
         "soft > hard and RLIMIT_NOFILE above fs.nr_open are the kernel's own "
